@@ -1025,7 +1025,9 @@ class UTPM(Ring, RawAlgorithmsMixIn):
 
         else:
             xbar, = out
-        xbar.data.imag -= ybar.data
+        # imag(x) of a real-valued x is constant zero: no contribution (and xbar.data.imag is read-only then)
+        if numpy.iscomplexobj(xbar.data):
+            xbar.data.imag -= ybar.data
 
 
     @classmethod
